@@ -132,6 +132,13 @@ func newGate(inner http.Handler) *gate {
 }
 
 func (g *gate) ServeHTTP(w http.ResponseWriter, r *http.Request) {
+	if r.URL.Path != "/ha/sessions" && r.URL.Path != "/ha/sessions/stream" {
+		// Not a request of the standby loop (it issues only these two): e.g. the /ha/health identity
+		// probe of an end-to-end test in another process whose just-released port number this
+		// listener happened to get.  Answer it without parking it at the gate.
+		g.inner.ServeHTTP(w, r)
+		return
+	}
 	ev := &gateReq{path: r.URL.Path, release: make(chan struct{})}
 	select {
 	case g.arrivals <- ev:
